@@ -28,6 +28,7 @@ func checkC16(c *Ctx) {
 	c16TicketState(c)
 	c16LRU(c)
 	c16SharedKeys(c)
+	hashFed(c, "G-HASH-fed", []string{"gmtls"})
 	c15FinishedHash(c) // the resumed GMSSL handshake builds its transcript hash with newFinishedHash
 }
 
